@@ -1,7 +1,7 @@
 --------------------------- MODULE MC_C04_session ---------------------------
 EXTENDS Naturals, TLC
-CONSTANTS Policy
-VARIABLES memo, answers, todo
+CONSTANTS Policy, Lifetime
+VARIABLES memo, answers, todo, fact
 \* three elements under two roots (one root has a <meta> language, one has none), two forms (one
 \* with a submit button, one without), one radio group
 MElements == {"e1", "e2", "e3"}
@@ -14,7 +14,12 @@ MFact == [k \in MKeys |->
             CASE k = "lang:r1" -> "en" [] k = "lang:r2" -> "none"
               [] k = "default:f1" -> "b1" [] k = "default:f2" -> "none"
               [] k = "indet:f1:g" -> "true"]
-S == INSTANCE Session WITH Elements <- MElements, Keys <- MKeys, Need <- MNeed, Fact <- MFact,
+\* the tree after a change through the API: a radio button of the group was checked, the first submit button of f1 removed
+MFact2 == [k \in MKeys |->
+            CASE k = "lang:r1" -> "en" [] k = "lang:r2" -> "de"
+              [] k = "default:f1" -> "b2" [] k = "default:f2" -> "none"
+              [] k = "indet:f1:g" -> "false"]
+S == INSTANCE Session WITH Elements <- MElements, Keys <- MKeys, Need <- MNeed, Facts <- {MFact, MFact2},
                            None <- "none", Empty <- ""
 Init == S!Init
 Next == S!Next
